@@ -51,8 +51,9 @@ cp "$VERIF/go.sum" "$SCR/go.sum"
 if [ "$ID" = "selftest-instrument" ]; then
   # the rewritten tree must still pass the repository's own test suite under
   # -race (simulator inactive => every Yield is a no-op, locks are try-lock spins)
-  mkdir -p "$SCR/stub/verif/simrt" "$SCR/stub/verif/stublog"
+  mkdir -p "$SCR/stub/verif/simrt/pkgstate" "$SCR/stub/verif/stublog"
   cp "$VERIF/simrt/simrt.go" "$SCR/stub/verif/simrt/"; cp "$VERIF/stublog/stublog.go" "$SCR/stub/verif/stublog/"
+  cp "$VERIF/simrt/pkgstate/pkgstate.go" "$SCR/stub/verif/simrt/pkgstate/"
   printf 'module verif\n\ngo 1.21\n' > "$SCR/stub/verif/go.mod"
   printf '\nrequire verif v0.0.0\n\nreplace verif => %s\n' "$SCR/stub/verif" >> "$SCR/repo/go.mod"
   ( cd "$SCR/repo" && go test -race -vet=off -count=1 ./... > "$SCR/test.log" 2>&1 )
